@@ -26,7 +26,7 @@ func init() {
 		Assumptions: []string{"range over a slice visits indices in ascending order", "the AWS SDK clients are opaque"},
 		Tech:        "static analysis: loop-structure path rules (failure edges return to the loop head), must-release wipe dataflow, struct-tag sibling agreement between the two plugins",
 		NeedU1:      true,
-		Rules:       []func(*Ctx){ruleC17TryAllRegions, ruleC17ClientOrder, ruleC17EntryPerSuccess, ruleC10Wipe, ruleC10WipeNotEarly, ruleC17SiblingEnvelope, ruleC17PreferredFirst, ruleC17NoLoopVarAlias, ruleC17WorkerContextLives, ruleC17ClientPerRegion, ruleC17KEKMatchedByRegion},
+		Rules:       []func(*Ctx){ruleC17TryAllRegions, ruleC17ClientOrder, ruleC17EntryPerSuccess, ruleC10Wipe, ruleC10WipeNotEarly, ruleC17SiblingEnvelope, ruleC17PreferredFirst, ruleC17NoLoopVarAlias, ruleC17WorkerContextLives, ruleC17ClientPerRegion, ruleC17KEKMatchedByRegion, ruleC07SuccessCarriesData},
 	})
 }
 
@@ -220,8 +220,43 @@ func regionStepHelper(c *Ctx, u *Universe, g *ssa.Function, name string) bool {
 	if steps == 0 {
 		return false
 	}
+	// and it never reports success without having made a step: every path from entry to a success return passes a step
+	isStep := func(i ssa.Instruction) bool {
+		if _, ok := i.(*ssa.Call); !ok || errOfCall(i) == nil {
+			return false
+		}
+		cc := callOf(i)
+		if cc.IsInvoke() {
+			return true
+		}
+		h := staticCallee(i)
+		return h != nil && h.Signature.Recv() != nil && strings.Contains(strings.ToLower(namedTypeName(h.Signature.Recv().Type())), "client")
+	}
+	idle, _ := pathSearchAt(g.Blocks[0], 0, func(j ssa.Instruction) pathAction {
+		if isStep(j) {
+			return pathStop
+		}
+		r, isR := j.(*ssa.Return)
+		if !isR || len(r.Results) == 0 {
+			return pathContinue
+		}
+		last := returnedValue(r, len(r.Results)-1)
+		if isErrorType(last.Type()) {
+			if isNilValue(last) {
+				return pathFound
+			}
+			return pathStop
+		}
+		if k, isC := constOf(last); isC && k.ExactString() == "false" {
+			return pathStop
+		}
+		return pathFound
+	}, nil)
+	if idle {
+		okAll = false
+	}
 	c.FuncsAnalysed[shortName(g)] = true
-	c.check(okAll, name+"/helper "+g.Name(), u.pos(g.Pos()), "every failing step in the helper reports failure to the loop", "a failing per-region step inside "+g.Name()+" can return success to the region loop")
+	c.check(okAll, name+"/helper "+g.Name(), u.pos(g.Pos()), "every failing step in the helper reports failure to the loop", "a failing per-region step inside "+g.Name()+" can return success to the region loop, or "+g.Name()+" reports success on a path that made no per-region step at all (e.g. no entry for the region): the loop then stops with no key although a later region could unwrap it")
 	return true
 }
 
